@@ -1547,7 +1547,7 @@ var alphabet = []string{"A", "R1", "R0", "O", "P", "C0", "C1", "X"}
 
 func main() {
 	o := hx.ParseFlags()
-	w, err := hx.NewWriter(o, "From Verif Require Import Base.CaseCheck Swap.Swap Swap.Check.", "scase")
+	w, err := hx.NewWriter(o, "From Verif Require Import Base.CaseCheck Swap.Swap Swap.Flag Swap.Check.", "scase")
 	if err != nil {
 		fmt.Fprintln(os.Stderr, err)
 		os.Exit(2)
